@@ -12,10 +12,9 @@ import (
 	"github.com/nspcc-dev/neo-go/pkg/util"
 )
 
-const (
-	headerBatchCount = 2000
-	pagesCache       = 8
-)
+// headerBatchCount (the number of header hashes per stored page, 2000) is
+// defined in headerhashes_batch.go.
+const pagesCache = 8
 
 // HeaderHashes is a header hash manager part of the Blockchain. It can't be used
 // without Blockchain.
